@@ -36,6 +36,8 @@ fn plan(tier: Tier) -> Vec<Workload> {
         Workload::new("values", tier.pick(4_000, 60_000)),
         // lines typed at the prompt obey the same rule, with or without a breakpoint pending
         Workload::new("immediate", tier.pick(6_000, 100_000)),
+        // CONT executes one statement like any other call, whatever was suspended and abandoned earlier in the session
+        Workload::new("resume", tier.pick(6_000, 100_000)),
     ]
 }
 
@@ -524,6 +526,73 @@ fn run_case(ctx: &Ctx, index: u64, rep: &mut Report) {
                 }
             }
         }
+        "resume" => {
+            // the same run, the same break, the same CONT on an interpreter with a past (a suspension that was never
+            // resumed) and on a fresh one: identical records call by call
+            let g = prog::generate(&mut rng, &GenOpts { inputs: false, stops: false, kf_permille: 0, failure_permille: 0, ..GenOpts::default() });
+            let seed = rng.below(1 << 33);
+            let break_after = 1 + rng.below(25);
+            let past: Vec<&str> = match rng.below(5) {
+                0 => vec!["STOP"],
+                1 => vec!["9000 PRINT 1 : STOP", "GOTO 9000", "9000"],
+                2 => vec!["9000 STOP", "9010 PRINT 2", "GOTO 9000", "9000", "9010"],
+                3 => vec!["STOP", "CONT"],
+                _ => vec!["9000 STOP", "GOTO 9000", "CONT", "9000"],
+            };
+            let run = |with_past: bool| -> (Vec<String>, bool) {
+                let mut s = Session::new();
+                s.keep_log = false;
+                s.it.enable_tracing = true;
+                if exec::load_program(&mut s, &g.prog).is_err() {
+                    return (vec![], true);
+                }
+                if with_past {
+                    for l in &past {
+                        s.run_line(l, 5);
+                        // (a suspension is left as it is: no settle)
+                        if s.state() != InterpreterState::Idle {
+                            s.settle();
+                        }
+                    }
+                }
+                s.call(Op::Randomize(seed));
+                let mut v = vec![];
+                let mut rec = s.call(Op::Line("RUN".into())).clone();
+                let mut n = 0u64;
+                let mut broke = false;
+                loop {
+                    v.push(format!("{:?} {:?} {:?}", rec.outs, rec.state, rec.res.outcome()));
+                    if s.poisoned || !rec.res.is_ok() || v.len() > 400 {
+                        break;
+                    }
+                    match s.state() {
+                        InterpreterState::Running => {
+                            n += 1;
+                            if n == break_after && !broke {
+                                broke = true;
+                                s.call(Op::Break);
+                                rec = s.call(Op::Line("CONT".into())).clone();
+                            } else {
+                                rec = s.call(Op::Cont).clone();
+                            }
+                        }
+                        _ => break,
+                    }
+                }
+                (v, s.poisoned)
+            };
+            let (a, pa) = run(true);
+            let (b, pb) = run(false);
+            rep.count("resume.pairs");
+            if !pa && !pb && a != b {
+                let k = a.iter().zip(b.iter()).position(|(x, y)| x != y).unwrap_or(a.len().min(b.len()));
+                ctx.violation(rep, "C09", "resume-depends-on-abandoned-suspension", index,
+                    format!("after the typed lines {:?} (a suspension that was never resumed), RUN + break after {} turns + CONT gives call #{} = {:?}; on a fresh interpreter {:?}", past, break_after, k + 1, a.get(k), b.get(k)),
+                    json!({"program": exec::program_json(&g.prog), "typed_before": past, "break_after_turns": break_after}));
+            } else if a.len() > break_after as usize {
+                rep.nontrivial(hash_str(&format!("resume|{}|{:?}|{}", g.prog.text(), past, break_after)));
+            }
+        }
         other => panic!("unknown workload {}", other),
     }
 }
@@ -535,6 +604,7 @@ fn finalize(_tier: Tier, rep: &mut Report) -> Finalize {
                work: for programs without user-defined functions every call's token-cursor reads <= 30 x (tokens on the executing line + 1). nonterm: six non-terminating programs driven 10000 turns with a break + CONT at a random turn. \
                values: single statements with huge / special operand values (whole-number powers of 1, -1, 0, 2 with exponents up to 10^300, INT/ABS/RND of them, FOR bounds, DIM sizes): the call returns within the token-read budget and the worker's CPU-time budget (a logical watchdog: CPU time of the calling thread, not wall time) and satisfies the work bound. \
                immediate: a multi-statement line typed at the prompt while a program is suspended (STOP or host break) takes the same calls, with the same records per call, as in a twin session whose breakpoint was dropped by an edit; never two PRINT records in one call; a non-terminating typed line stays interruptible. \
+               resume: RUN, a host break after k turns and CONT, once on an interpreter on which a STOP (typed, or ending a program line) suspended something that was never resumed, once on a fresh one: identical records call by call. \
                adapter: G-prog programs run through the Web adapter (JsInterpreter::start_evaluating / continue_evaluating, TRACE on in half of the cases): per call at most one PRINT record and at most 1 + max(#THEN + #ELSE of any line) trace records, and as many calls as the core interpreter needs for the same run. \
                Non-trivial (turns): >= 50 turns compared in a program that executed an IF and a NEXT; every nonterm run counts. Distinct by program hash.".into(),
         floors: vec![
@@ -546,6 +616,7 @@ fn finalize(_tier: Tier, rep: &mut Report) -> Finalize {
             ("adapter.calls".into(), 200_000),
             ("values.statements".into(), 3_000),
             ("immediate.calls_compared".into(), 15_000),
+            ("resume.pairs".into(), 5_000),
             ("immediate.breakpoint_pending".into(), 3_000),
             ("distinct_nontrivial".into(), 300),
         ],
